@@ -41,6 +41,13 @@ pub fn dec_cases(t: bool) -> Vec<Case> {
     for a in 0..9u8 {
         c.push(Case::Dec { which: 3, a, b: 0, c: 0 });
     }
+    // which 21: decoders on long inputs: a multi-byte / invalid sequence placed at every offset around the 4 KiB,
+    // 8 KiB and 64 KiB marks of an otherwise ASCII input (a: mark, b: sequence, c: unused; all 12 offsets inside)
+    for a in 0..3u8 {
+        for b in 0..LONG_SEQS.len() as u8 {
+            c.push(Case::Dec { which: 21, a, b, c: 0 });
+        }
+    }
     // which 20: long texts (a: text shape, b: operation, c: position class); see `run_long_text`
     for a in 0..LONG_SHAPES as u8 {
         for b in 0..LONG_OPS.len() as u8 {
@@ -52,6 +59,7 @@ pub fn dec_cases(t: bool) -> Vec<Case> {
     c
 }
 
+const LONG_SEQS: [&[u8]; 10] = [&[0xF0, 0x9F, 0x98, 0x80], &[0xE2, 0x82, 0xAC], &[0xC3, 0xA9], &[0xF0, 0x9F, 0x98], &[0xFF], &[0xC0, 0x80], &[0xED, 0xA0, 0x80], &[0xF4, 0x90, 0x80, 0x80], &[0xE2, 0x82], &[0x80, 0x80, 0xF0, 0x9F, 0x98, 0x80]];
 const LONG_SHAPES: usize = 4;
 const LONG_POS: usize = 9;
 const LONG_OPS: [&str; 16] = ["push", "pop", "insert", "insert_str", "remove", "truncate", "split_off+push both", "drain(p..)", "drain(..p)", "drain(p..q)", "replace_range grow", "replace_range shrink", "retain ascii", "retain non-ascii", "extend chars", "clone+eq+hash"];
@@ -173,6 +181,7 @@ pub fn describe_dec(which: u8, a: u8, b: u8, c: u8, _t: bool) -> serde_json::Val
         1 => serde_json::json!({"decoders": "from_utf8 + from_utf8_lossy_in", "inputs": format!("all strings of length 2..=5 over the 26 class bytes starting with {:#04x} {:#04x}", CLASSES[a as usize], CLASSES[b as usize])}),
         4 => serde_json::json!({"decoders": "from_utf8 + from_utf8_lossy_in", "inputs": format!("all strings of length 6..=7 over the 26 class bytes starting with {:#04x} {:#04x} {:#04x}", CLASSES[a as usize], CLASSES[b as usize], CLASSES[c as usize])}),
         20 => serde_json::json!({"long_text_shape": a, "operation": LONG_OPS[b as usize], "position_class": c}),
+        21 => serde_json::json!({"decoders": "from_utf8 + from_utf8_lossy_in on long inputs", "inputs": format!("ASCII with the bytes {:02x?} placed at each of the 12 offsets before/after the {} byte mark", LONG_SEQS[b as usize], [4096, 8192, 65536][a as usize])}),
         _ => serde_json::json!({"decoders": "from_utf16_in", "inputs": format!("all u16 strings of length <= 6 over 9 unit classes starting with {:#06x}", UNITS[a as usize])}),
     }
 }
@@ -246,6 +255,23 @@ pub fn run_dec(envp: *mut ExecEnv, which: u8, a: u8, b: u8, c: u8, _t: bool, v: 
             20 => {
                 run_long_text(&bump, a, b, c, v, &mut h);
                 n += 1;
+            }
+            21 => {
+                let mark = [4096usize, 8192, 65536][a as usize];
+                let seq = LONG_SEQS[b as usize];
+                let mut input: std::mem::ManuallyDrop<Vec<u8>> = { let _g = Callback::enter(); std::mem::ManuallyDrop::new(vec![b'x'; mark + 64]) };
+                for off in (mark - 8)..(mark + 4) {
+                    for (i, x) in input.iter_mut().enumerate() {
+                        *x = b'a' + (i % 23) as u8;
+                    }
+                    input[off..off + seq.len()].copy_from_slice(seq);
+                    n += 1;
+                    if !go(&mut bump, &input[..], v, &mut h) {
+                        break;
+                    }
+                }
+                let _g = Callback::enter();
+                drop(std::mem::ManuallyDrop::into_inner(input));
             }
             0 => {
                 if a == 0 && !go(&mut bump, &[], v, &mut h) {
@@ -407,6 +433,18 @@ pub fn vgrow_cases(t: bool) -> Vec<Case> {
             }
         }
     }
+    // kind 16: two vectors growing side by side (each growth has to move): memory held stays proportional
+    for &esz in sizes {
+        for n in [2048u32, if t { 65536 } else { 16384 }] {
+            c.push(Case::VGrow { kind: 16, esz, n });
+        }
+    }
+    // kind 15: large reservations (1, 3 and 5 MiB beyond the current buffer in one step) keep their promise
+    for &esz in sizes {
+        for n in [1u32, 3, 5] {
+            c.push(Case::VGrow { kind: 15, esz, n });
+        }
+    }
     // kind 14: a Vec with reserved capacity must not move when a splice (inexact size hint) fits
     for &esz in sizes {
         for n in [8u32, 32, 100] {
@@ -457,6 +495,46 @@ fn vgrow_typed<T: Copy + 'static>(envp: *mut ExecEnv, kind: u8, n: usize, val: T
                 vec.push(val);
                 if vec.as_ptr() as usize != p0 || vec.capacity() != c0 {
                     return Some(format!("buffer moved or capacity changed at push {} of {} reserved (capacity {} -> {})", i + 1, n, c0, vec.capacity()));
+                }
+            }
+            None
+        }
+        16 => {
+            let mut v1: BVec<T> = BVec::new_in(&bump);
+            let mut v2: BVec<T> = BVec::new_in(&bump);
+            for _ in 0..n {
+                v1.push(val);
+                v2.push(val);
+            }
+            let stored = 2 * n * esz.max(1);
+            let held = unsafe { (*envp).live_bytes(0) };
+            let reqs = unsafe { (*envp).total_reqs } as usize;
+            let bound_reqs = 2 * (stored.max(512) / 512).ilog2() as usize + 8;
+            if esz > 0 && held > 16 * stored + (1 << 16) {
+                return Some(format!("two vectors of {n} elements ({stored} bytes) growing side by side: the arena holds {held} bytes"));
+            }
+            if esz > 0 && reqs > bound_reqs {
+                return Some(format!("two vectors of {n} elements ({stored} bytes) growing side by side: {reqs} global-allocator requests (bound {bound_reqs})"));
+            }
+            None
+        }
+        15 => {
+            // n MiB more than the vector holds, asked for in one amortised step (reserve, then try_reserve on a second vector)
+            let extra = (n << 20) / esz.max(1);
+            for fallible in [false, true] {
+                let mut vec: BVec<T> = BVec::new_in(&bump);
+                for _ in 0..100 {
+                    vec.push(val);
+                }
+                if fallible {
+                    if vec.try_reserve(extra).is_err() {
+                        continue;
+                    }
+                } else {
+                    vec.reserve(extra);
+                }
+                if vec.capacity() < vec.len() + extra {
+                    return Some(format!("{}({extra}) on a vector of {} elements returned normally with capacity {} (< {})", if fallible { "try_reserve" } else { "reserve" }, vec.len(), vec.capacity(), vec.len() + extra));
                 }
             }
             None
@@ -546,6 +624,8 @@ fn vgrow_typed<T: Copy + 'static>(envp: *mut ExecEnv, kind: u8, n: usize, val: T
                 1 => "reserved_capacity_not_stable/reserve".into(),
                 5..=13 => format!("vec_growth_not_geometric/{}", VG_METHODS[kind as usize - 5].split('(').next().unwrap()),
                 14 => "reserved_capacity_not_stable/splice".into(),
+                15 => "reserve_promise_broken/large".into(),
+                16 => "held_memory_not_proportional/two_vectors".into(),
                 _ => "vec_growth_not_geometric".into(),
             };
             push("vec_capacity", key, format!("Vec<{} bytes> n={}: {}", esz, n, msg));
